@@ -88,6 +88,7 @@ package offline_signature
 
 //@ spec func OffKey(o *OfflineSignature) []byte { return o.transientPublicKey }
 //@ spec func OffSig(o *OfflineSignature) []byte { return o.signature }
+//@ spec func OffTransientType(o *OfflineSignature) int { return int(o.sigtype) }
 
 //@ contract (o *OfflineSignature) SignedData() (b []byte)
 //@   requires o != nil
